@@ -262,7 +262,7 @@ def func_scripts(d, prop):
             add([_mk("arr", n), _mk("arr", n), {"op": "zip", "recv": [1, 2], "form": ["own", "ref"], "panic_at": pa}], recv="own,ref")
         return out
     if op == "generate":
-        for okind in ("arr", "box"):
+        for okind in ("arr", "box", "arr_via_ref", "arr_via_mut"):
             add([{"op": "generate", "n": n, "okind": okind, "panic_at": pa}], okind=okind)
     elif op in ("map", "fold"):
         if form[0]:
